@@ -342,8 +342,10 @@ def r5(ctx, P):
         if tlc:
             ba = bool_arms(rf, tlc[0])
             if ba:
-                tb = rf.reachable_from(ba["true"], stop=[ba["false"]])
-                ok = bool(assigns_ret_variant(rf, tb, "Err")) and not assigns_ret_variant(rf, tb, "Ok")
+                from ..query import reach_with_variants
+                tb = reach_with_variants(rf, ba["true"], stop=[ba["false"]])
+                errs = bool(assigns_ret_variant(rf, tb, "Err")) or any(c.name == "from_residual" and c.bb in tb and c.dest and c.dest[0] == 0 for c in rf.calls)
+                ok = errs and not assigns_ret_variant(rf, tb, "Ok")
         ctx.ob("R5", "oversized content is rejected with Err", ok, "the true arm of file_too_large returns Err (counted as a skipped file by run_worker)", where=rf.loc())
 
 
@@ -451,6 +453,10 @@ def consumer_state(ctx, rid):
                     continue
                 n += 1
                 generic = bool(re.match(r"^&mut (impl )?[A-Z]\w*$", ty)) or "dyn " in ty or "impl " in ty
+                if not generic and c.name in ("replace", "take", "swap") and "core::mem::" in c.best and (len(c.args) < 2 or c.args[1][0] == "k"):
+                    # std::mem::replace(&mut self.flag, CONST) / mem::take: a latch written through a `&mut`
+                    ctx.ob(rid, "%s latches %s" % (f.id, fld.split("|")[0][1:] + " of " + fld.split("|")[1].rsplit("::", 1)[-1]), True, "core::mem::%s with a constant" % c.name, where=f.loc(c.line), nontrivial=False)
+                    break
                 ctx.ob(rid, "%s calls %s on %s" % (f.id, c.name, fld.split("|")[0][1:] + " of " + fld.split("|")[1].rsplit("::", 1)[-1]), generic,
                        "the writer / inner printer (generic type %s)" % ty[5:] if generic else
                        "a `&mut` method of the concrete type %s is called on a printer field: per-item data can accumulate across items" % ty[5:], where=f.loc(c.line),
